@@ -238,6 +238,18 @@ pub fn scenario(g: &mut G, ctx: &RunCtx) -> RunReport {
             continue;
         }
         let mut name = gen_name(g, i);
+        // (no draw) every seventh field bears a registered name: the client has no opinion about any of them
+        // (framing, coding and Location are excluded below) and reports them like the made-up ones
+        if i % 7 == 3 {
+            const REGISTERED: &[&str] = &[
+                "Keep-Alive", "Proxy-Connection", "Connection", "Upgrade", "TE", "Trailer", "Via", "Warning", "Age", "ETag", "Expires", "Last-Modified", "Date", "Server", "Set-Cookie", "Set-Cookie",
+                "Vary", "WWW-Authenticate", "Proxy-Authenticate", "Proxy-Authorization", "Authorization", "Accept-Ranges", "Content-Range", "Content-Language", "Content-Disposition", "Content-MD5",
+                "Content-Security-Policy", "Strict-Transport-Security", "Alt-Svc", "Link", "Retry-After", "Refresh", "Allow", "Cache-Control", "Pragma", "Expect", "Host", "Cookie", "Range", "X-Content-Type-Options",
+                "Access-Control-Allow-Origin", "Public-Key-Pins", "Sec-WebSocket-Accept", "Content-Type", "keep-alive", "PROXY-CONNECTION",
+            ];
+            name = REGISTERED[(i * 31 + nfields * 7 + status as usize) % REGISTERED.len()].to_string();
+            g.probe("registered-field-name");
+        }
         // never generate framing / coding headers by accident
         let l = name.to_ascii_lowercase();
         if l == "content-length" || l == "transfer-encoding" || l == "content-encoding" || l == "location" {
